@@ -181,7 +181,11 @@ func init() {
 					hooks.ResetCounters()
 					hf = newHistFuncs()
 				},
-				Run:      func(c *harness.Ctx, k int) { runC05(c, hf) },
+				Run: func(c *harness.Ctx, k int) {
+					// key / container poison also hides a library that wrongly re-uses a recycled buffer's content: every second history runs without
+					hooks.Configure(hooks.Options{PoisonContainers: k%2 == 0, PoisonKeys: k%2 == 0, ScrambleKeys: 4, CaptureTree: true})
+					runC05(c, hf)
+				},
 				Finish:   reportHooks,
 				Required: []string{"history:flipped-outcome", "history:with-error", "history:with-user-panic", "history:accessor", "final:after-scribble"},
 			}
